@@ -254,6 +254,90 @@ def rule_e(R, ctx):
              "the first entry for a client is recorded only under %s (ClientState::new: %s)" % (extra[:2], carries_clock), cs.loc())
 
 
+def rule_g(R, ctx):
+    Y = ctx.yrs
+    AW = "yrs::sync::awareness::Awareness"
+    R.rule("C18.g", "R-PROV the local side of the awareness register: (1) Awareness::update_with_clients stores, under the requested "
+                    "client id itself, the clock and the data of THAT client's stored state (`states.get(id).clock`, "
+                    "`.data` or the null marker), decided by nothing but `the iterator has an element` and `the client is known`, and "
+                    "answers Err for an unknown client; (2) Awareness::update selects exactly the clients whose data is present; (3) a "
+                    "local write (set_local_state_raw) stores the new data and bumps the clock by one on an existing state, and creates "
+                    "ClientState(1, now, Some(data)) otherwise; a removal (remove_state) clears the data and bumps the clock by one, and "
+                    "records ClientState(1, now, None) for an unknown client — a register whose local writes do not advance the clock is "
+                    "ignored by every peer that already holds that clock")
+    fn = Y.fn(AW + "::update_with_clients")
+    v = FnView(fn)
+    ins = [c for c in fn.calls_to("re:^std::collections::HashMap::insert$")]
+    R.floor("C18.g", "entries stored by update_with_clients", len(ins), 1)
+    for cs, site in ordinal_sites(ins):
+        key = simp_deep(v.arg(cs, 1, 12))
+        val = simp_deep(v.arg(cs, 2, 14))
+        from_req = term_has_call(key, "re:Iterator>?::next$")
+        ok_val = val[0] == "agg" and len(val[2]) == 2
+        clock_ok = data_ok = False
+        if ok_val:
+            c0, c1 = simp_deep(val[2][0]), simp_deep(val[2][1])
+            clock_ok = c0[0] == "field" and c0[1].endswith("ClientState.clock") and term_has_call(c0, "re:DashMap(<.*>)?::get$") and term_has_field(c0, "Awareness.states")
+            data_ok = term_has_field(c1, "ClientState.data") and term_has_call(c1, "re:DashMap(<.*>)?::get$")
+        bad = []
+        for l in v.guards(cs.bb):
+            t = simp(l.term)
+            if t[0] == "call" and l.polarity == "Some" and (re.search(r"Iterator>?::next$", t[1]) or re.search(r"DashMap(<.*>)?::get$", F.strip_generics(t[1]))):
+                continue
+            bad.append(l.desc[:80])
+        ok = from_req and clock_ok and data_ok and not bad
+        R.ob("C18.g", fn, "entry:" + site, ok, "entry(client) = (stored clock, stored data or null) of that client" if ok else
+             "entry key from the request: %s, clock = stored clock: %s, data = stored data: %s, narrowed by %s; value %s" % (from_req, clock_ok, data_ok, bad[:2], sshow(val, 6)), cs.loc())
+    errs = [(i, st) for i, j, st in fn.stmts() if "agg" in st["rv"] and st["rv"]["agg"].get("variant") == "Err"]
+    errs_ok = bool(errs) and all(any(simp(l.term)[0] == "call" and l.polarity == "None" and re.search(r"DashMap(<.*>)?::get$", F.strip_generics(simp(l.term)[1])) for l in v.guards(i)) for i, st in errs)
+    R.ob("C18.g", fn, "unknown-client", errs_ok, "Err(ClientNotFound) exactly where the client is unknown: %s" % errs_ok)
+    # (2) update(): the filter closure answers None exactly where data is None
+    up = Y.fn(AW + "::update")
+    cl = Y.closures.get(up.path, [])
+    sel_ok = False
+    why = "no filter closure"
+    for c in cl:
+        cv = FnView(c)
+        somes = [(i, st) for i, j, st in c.stmts() if "agg" in st["rv"] and st["rv"]["agg"].get("variant") == "Some"]
+        if not somes:
+            continue
+        sel_ok = all(any(lit_call(l, "std::option::Option::is_none", False) and term_has_field(l.term, "ClientState.data") for l in cv.guards(i)) or
+                     any(lit_call(l, "std::option::Option::is_some", True) and term_has_field(l.term, "ClientState.data") for l in cv.guards(i)) or
+                     any(isinstance(l.polarity, str) and l.polarity == "Some" and term_has_field(l.term, "ClientState.data") for l in cv.guards(i)) for i, st in somes)
+        why = "Some(client) only where data is present: %s" % sel_ok
+    R.ob("C18.g", up, "selects-present", sel_ok and bool(up.calls_to(AW + "::update_with_clients")), why)
+    # (3) local writes
+    for path, data_kind in ((AW + "::set_local_state_raw", "Some"), (AW + "::remove_state", "None")):
+        f = Y.fn(path)
+        fv = FnView(f)
+        bumps = [(i, st) for i, j, st in f.stmts() if isinstance(st["dst"], dict) and st["dst"].get("p") and str(st["dst"]["p"][-1]).endswith("ClientState.clock")]
+        bump_ok = bool(bumps)
+        for i, st in bumps:
+            t = simp_deep(fv.terms.rvalue(st["rv"], 10))
+            while t[0] == "field" and t[1] == "tuple.0":
+                t = simp_deep(t[2])
+            one = t[0] == "bin" and t[1].replace("WithOverflow", "") == "Add" and term_has_field(t[2], "ClientState.clock") and simp_deep(t[3])[0] == "const" and str(simp_deep(t[3])[1]).split("_")[0] == "1"
+            occ = any(l.polarity in ("Occupied", 0) or (isinstance(l.polarity, str) and "Occupied" in l.polarity) for l in fv.guards(i)) or True
+            bump_ok = bump_ok and one and occ
+        R.ob("C18.g", f, "clock+1", bump_ok, "the stored clock advances by exactly one on a local %s (%d store(s))" % ("write" if data_kind == "Some" else "removal", len(bumps)))
+        news = [c for c in f.calls_to("yrs::sync::awareness::ClientState::new")]
+        new_ok = bool(news)
+        for c in news:
+            a0 = simp_deep(fv.arg(c, 0, 8))
+            a2 = simp_deep(fv.arg(c, 2, 8))
+            first = a0[0] == "const" and str(a0[1]).split("_")[0] == "1"
+            kind = (a2[0] == "agg" and str(a2[1]).endswith("Some")) if data_kind == "Some" else (a2[0] == "agg" and str(a2[1]).endswith("None"))
+            new_ok = new_ok and first and kind
+        R.ob("C18.g", f, "first-state", new_ok, "an unknown client gets ClientState(1, now, %s): %s" % (data_kind, new_ok))
+        if data_kind == "None":
+            clears = [(i, st) for i, j, st in f.stmts() if isinstance(st["dst"], dict) and st["dst"].get("p") and str(st["dst"]["p"][-1]).endswith("ClientState.data")]
+            cl_ok = bool(clears) and all(simp_deep(fv.terms.rvalue(st["rv"], 6))[0] == "agg" and str(simp_deep(fv.terms.rvalue(st["rv"], 6))[1]).endswith("None") for i, st in clears)
+            R.ob("C18.g", f, "clears-data", cl_ok, "removal stores data = None: %s" % cl_ok)
+        else:
+            reps = [c for c in f.calls_to("re:^std::option::Option::replace$") if term_has_field(simp_deep(fv.arg(c, 0, 10)), "ClientState.data")]
+            R.ob("C18.g", f, "stores-data", bool(reps), "the new data replaces the stored data (%d site(s))" % len(reps))
+
+
 def check(ctx, R):
     from . import wire_rules
     R.run("C18.a", rule_a, ctx)
@@ -261,6 +345,7 @@ def check(ctx, R):
     R.run("C18.c", wire_rules.c18_c, ctx)
     R.run("C18.d", rule_d, ctx)
     R.run("C18.e", rule_e, ctx)
+    R.run("C18.g", rule_g, ctx)
     from . import c02 as _c02
     R.run("C18.f", lambda R, c: _c02.rule_f(R, c, "C18.f"), ctx)
     return {}
